@@ -133,6 +133,29 @@ def toVals (seqSyms : List Name) : List (Tree Sym) → Except Err (List Val)
       | .ok xs => .ok (x :: xs)
 end
 
+/-! ### how `_Tokenizer.tokenize` cuts a `str` into lines -/
+
+/-- `str.split(sep)` for a one-character separator -/
+def splitOn (sep : Char) : List Char → List (List Char)
+  | [] => [[]]
+  | c :: cs =>
+    if c = sep then [] :: splitOn sep cs
+    else match splitOn sep cs with
+      | [] => [[c]]
+      | l :: ls => (c :: l) :: ls
+
+/-- code points for which `str.isspace()` holds (what `str.rstrip()` removes) -/
+def pySpaces : List Nat :=
+  [9, 10, 11, 12, 13, 28, 29, 30, 31, 32, 133, 160, 5760, 8192, 8193, 8194, 8195, 8196, 8197, 8198, 8199, 8200, 8201,
+   8202, 8232, 8233, 8239, 8287, 12288]
+
+def rstrip (s : List Char) : List Char :=
+  (s.reverse.dropWhile fun c => decide (c.toNat ∈ pySpaces)).reverse
+
+/-- `(t.rstrip() for t in text.split('\n'))`: the separator is read from the source (`Gen.C05.lineSep`) -/
+def strLines (text : List Char) : List (List Char) :=
+  (splitOn Gen.C05.lineSep text).map rstrip
+
 /-- `parse(text, do_cleanup=False)` on the lexemes found by the tokenizer's regular expression -/
 def TParser.parseRaw (T : TParser) (raw : List (Name × List Char)) (fuel : Nat) : Except Err Val :=
   match T.ll.parse raw fuel with
